@@ -52,6 +52,7 @@ func vfFSReset() {
 	vfHandles = map[*os.File]*vfHandle{}
 	vfOps, vfCrashAt, vfFailAt = 0, -1, -1
 	vfOpLog = nil
+	vfTruncOpens = 0
 }
 
 // vfStep numbers a file-system operation; crash or inject a fault if it is the chosen one.
@@ -67,7 +68,13 @@ func vfStep(kind string) error {
 	return nil
 }
 
+// vfTruncOpens counts opens with O_TRUNC (the first thing a compaction does is to create its temporary file that way).
+var vfTruncOpens int
+
 func vfOpenFile(name string, flag int, perm os.FileMode) (*os.File, error) {
+	if flag&os.O_TRUNC != 0 {
+		vfTruncOpens++
+	}
 	if err := vfStep("open"); err != nil {
 		return nil, err
 	}
